@@ -828,11 +828,14 @@ impl TypedExpr {
                 let x = x.compile(prg, env, circuit);
                 assert_eq!(x.len(), 1);
                 let panic_before_y = circuit.peek_panic().clone();
+                let env_before_y = env.clone();
                 let y = y.compile(prg, env, circuit);
                 assert_eq!(y.len(), 1);
 
                 let panic = circuit.mux_panic(x[0], &circuit.peek_panic().clone(), &panic_before_y);
                 circuit.replace_panic_with(panic);
+                // assignments made by y only take effect if y is evaluated:
+                *env = circuit.mux_envs(x[0], env.clone(), env_before_y);
 
                 vec![circuit.push_and(x[0], y[0])]
             }
@@ -840,11 +843,14 @@ impl TypedExpr {
                 let x = x.compile(prg, env, circuit);
                 assert_eq!(x.len(), 1);
                 let panic_before_y = circuit.peek_panic().clone();
+                let env_before_y = env.clone();
                 let y = y.compile(prg, env, circuit);
                 assert_eq!(y.len(), 1);
 
                 let panic = circuit.mux_panic(x[0], &panic_before_y, &circuit.peek_panic().clone());
                 circuit.replace_panic_with(panic);
+                // assignments made by y only take effect if y is evaluated:
+                *env = circuit.mux_envs(x[0], env_before_y, env.clone());
 
                 vec![circuit.push_or(x[0], y[0])]
             }
